@@ -13,7 +13,7 @@ import (
 
 var iniDecl = &GenCfg{Depth: 2, Fanout: 2, MaxOpts: 4, MaxGroups: 2, NestGroups: 2, Kinds: append(append([]Kind{}, AllArgKinds...), KBool, KBoolSlice, KBoolPtr, KFunc0, KFuncS, KFuncI),
 	Ns: true, Req: 0, Choices: true, Defaults: true, Hidden: true, Desc: true, Initial: true, Bases: true, Aliases: true, SubOpt: 100, NonASCII: true, CmdPct: 60,
-	NsDelims: []string{"-", "::"}, ParserOpts: []flags.Options{flags.IgnoreUnknown}}
+	NsDelims: []string{"-", "::"}, ParserOpts: []flags.Options{flags.IgnoreUnknown}, FieldPool: true, InCode: 8}
 
 type C14Case struct {
 	D          *Decl     `json:"decl"`
